@@ -28,6 +28,12 @@ for rel, old, new in (('src/sdc11073/mdib/transactions.py', 'tmp_state', 'work_s
     p = wt / rel
     s = p.read_text()
     p.write_text(re.sub(r'\b%s\b' % old, new, s))
+# a harmless logging statement in a function that a syntactic frame looks at
+p = wt / 'src/sdc11073/httpserver/httprequesthandler.py'
+s = p.read_text()
+s = s.replace("        # neutral edit\n        return HTTPReader.read_request_body(self)",
+              "        self.server.logger.debug('reading request body')\n        # neutral edit\n        return HTTPReader.read_request_body(self)")
+p.write_text(s)
 print('comment lines inserted:', n)
 P
 cd $wt && PYTHONPATH=$wt/src /venv/bin/python -c "import sdc11073, sdc11073.mdib, sdc11073.provider, sdc11073.consumer; print('imports ok')" || exit 3
